@@ -22,6 +22,17 @@ def limit(case):
                             bad.append(dict(order=order, method=method, path=path, raised=repr(e)[:100])); continue
                         if not np.all(np.abs(v - c[0]) <= 1e-8) or not np.all(np.isreal(info.error_estimate)) or not np.all(np.real(info.error_estimate) >= 0):
                             bad.append(dict(order=order, method=method, path=path, z0=str(z0), got=str(v), expected=str(c[0]), err=str(info.error_estimate)))
+        # arrays with several axes in every memory layout: each point has its own limit g(z0[idx])
+        Z = np.array([[0.3, -1.2, 2.0], [0.7, 1.1, -0.4]])
+        g = lambda z: 2.0 + z + 0.5 * z * z
+        for name, z0 in [('C', Z), ('F', np.asfortranarray(Z)), ('transposed-view', np.ascontiguousarray(Z.T).T)]:
+            def f(z, z0=z0):
+                d = z - z0
+                with np.errstate(all='ignore'):
+                    return g(z) * np.where(d == 0, 1.0, np.sin(d) / np.where(d == 0, 1.0, d))
+            v = Limit(f, full_output=False).limit(z0)
+            if np.shape(v) != Z.shape or not np.allclose(v, g(Z), rtol=1e-7, atol=1e-7):
+                bad.append(dict(z0_layout=name, z0=Z.tolist(), got=np.asarray(v).tolist(), expected=g(Z).tolist()))
     return dict(reproduced=bool(bad), failing=bad[:4], statement='Limit of a polynomial kernel of degree <= order+1 is its constant term')
 
 
